@@ -73,7 +73,7 @@ CHECKS = {
     level="exploration", design="2/C08",
     technique="runtime monitor: byte-for-byte stream oracle (collected stream vs to_bytes() ++ payload) under scripted payload sources, varying consumer buffers, manual executor and the real block_on bridge",
     text="Each generated message is consumed through into_read and into_async_read with payload sources {none, blocking scripted reader, async scripted reader}, payloads from 0 B to MiBs delivered with random chunking, Interrupted and Pending (immediate / deferred wake, helper-thread wakes under the blocking bridge), and consumer read-buffer sizes varying per call from 1 B to 64 KiB; the collected bytes must equal to_bytes() of the same instance (whose 8 header octets are themselves judged against the header values, and which in every 4th case is taken before the header is changed through header_mut(), the stream having to carry the header as it is now) followed by exactly the payload, end with repeated clean EOF, and drain the source. Cross pairs (blocking payload via async, async payload via blocking) are part of every run.",
-    note="A blocking consumption that never returns is reported inconclusive after 300 s (cannot be decided on logical steps)."),
+    note="Every 4th blocking consumption of an async payload hands the half-read stream to a second thread. A consumer that has not polled the source again 20 s after the source's helper thread signalled readiness is reported as a lost wake-up (bounded progress); any other consumption exceeding 300 s is inconclusive."),
  "C15": dict(
     level="exploration", design="2/C15",
     technique="runtime cost monitoring on deterministic step measures: counting global allocator (bytes, calls) and cachegrind instruction counts over doubling input families; incremental-ratio oracle",
